@@ -169,6 +169,67 @@ Proof.
   pose proof (network_in_flight ls s k) as L. cbn zeta in L. rewrite Hd, app_nil_r in L. rewrite L. exact E.
 Qed.
 
+(* ---------- a decidable form of the premise (used by corr/NetworkCorr.v to count, on the recorded histories of two real
+   endpoints, how often the premises of the theorem are met) ---------- *)
+Definition hearsb (e : ep) (f : frame) : bool :=
+  match f with
+  | FRequestResponse _ _ _ _ _ | FRequestFnf _ _ _ _ _ | FRequestStream _ _ _ _ _ _ | FRequestChannel _ _ _ _ _ _ _ =>
+      match tget (table e) (fsid f) with None => true | Some _ => false end
+  | FPayload _ _ _ _ _ _ _ =>
+      match tget (table e) (fsid f) with
+      | Some oid => match nth_error (objs e) oid with Some ob => receptive ob | None => false end
+      | None => false
+      end
+  | _ => false
+  end.
+
+Lemma hearsb_sound e f : hearsb e f = true -> hears e f.
+Proof.
+  unfold hearsb, hears. destruct f; try discriminate;
+    try (destruct (tget (table e) _) eqn:Ht; [discriminate|reflexivity]).
+  destruct (tget (table e) _) as [oid|] eqn:Ht; [|discriminate].
+  destruct (nth_error (objs e) oid) as [ob|] eqn:Ho; [|discriminate].
+  intro Hr. exists oid, ob. repeat split; assumption.
+Qed.
+
+Definition listens_atb (n : net) (l : nlabel) (s : side) (k : N) : bool :=
+  match l with
+  | NDeliver s' k' _ _ =>
+      if side_eqb s' s && (k' =? k) then
+        match pop (inbox n s) k with
+        | Some (f, _) => match carried f with
+                         | Some p => negb (nonempty p) || hearsb (ep_of n s) f
+                         | None => true
+                         end
+        | None => true
+        end
+      else true
+  | NLocal _ _ => true
+  end.
+
+Fixpoint listeningb (n : net) (ls : list nlabel) (s : side) (k : N) : bool :=
+  match ls with
+  | [] => true
+  | l :: r => listens_atb n l s k && listeningb (fst (net_step n l)) r s k
+  end.
+
+Lemma listeningb_sound : forall ls n s k, listeningb n ls s k = true -> listening n ls s k.
+Proof.
+  induction ls as [|l ls IH]; intros n s k H; [exact I|]. cbn [listeningb] in H. apply andb_true_iff in H as [H1 H2].
+  split; [|apply IH; exact H2]. clear H2 IH.
+  destruct l as [s0 l|s0 k0 o u]; [exact I|]. cbn [listens_at listens_atb] in *.
+  destruct (side_eqb s0 s && (k0 =? k)); [|exact I].
+  destruct (pop (inbox n s) k) as [[f rest]|]; [|exact I].
+  destruct (carried f) as [p|]; [|exact I].
+  intro Hne. rewrite Hne in H1. cbn [negb orb] in H1. apply hearsb_sound. exact H1.
+Qed.
+
+Corollary network_exactly_once_b ls s k : k <> 0 -> listeningb net_init ls s k = true ->
+  let r := net_run net_init ls in
+  on_stream k (inbox (fst r) s) = [] ->
+  wanted (got (snd r) s k) = wanted (pmap carried (on_stream k (nwire (snd r) (other s)))).
+Proof. intros Hk H. apply network_exactly_once; [exact Hk|apply listeningb_sound; exact H]. Qed.
+
 (* an empty payload is no element on the wire (on_wire): the statement above cannot speak about those; what it leaves
    out is exactly this *)
 Lemma wanted_spec l p : In p (wanted l) <-> In p l /\ nonempty p = true.
